@@ -847,6 +847,13 @@ int reb_collision_resolve_merge(struct reb_simulation* const r, struct reb_colli
     pi->m  = pi->m + pj->m;
     pi->r  = cbrt(pi->r*pi->r*pi->r + pj->r*pj->r*pj->r);
     pi->last_collision = r->t;
+    // The merged particle is larger than its progenitors. Keep the upper bounds used by the tree searches valid.
+    if (pi->r>=r->max_radius0){
+        r->max_radius1 = r->max_radius0;
+        r->max_radius0 = pi->r;
+    }else if (pi->r>=r->max_radius1){
+        r->max_radius1 = pi->r;
+    }
 
 
     // Keeping track of energy offst
